@@ -41,6 +41,8 @@ var (
 	overlay  = flag.String("overlay", "", "overlay JSON to write")
 	tagsFlag = flag.String("tags", "verif,verif_sched", "build tags")
 	shimOS   = flag.Bool("os", false, "also replace package os by the logging shim")
+	osOnly   = flag.String("osonly", "", "only replace the os import (by verif/vos) in the named files (comma separated base names); no other rewriting")
+	addFiles = flag.String("add", "", "extra files to add to the first package directory through the overlay (comma separated paths)")
 	verbose  = flag.Bool("v", false, "verbose")
 )
 
@@ -56,7 +58,7 @@ func main() {
 		os.Exit(2)
 	}
 	if *shimOS {
-		shimImports["os"] = "verif/vrt/os"
+		shimImports["os"] = "verif/vos"
 	}
 	var units []unit
 	instrumented := map[string]bool{}
@@ -75,6 +77,31 @@ func main() {
 	}
 	replace := map[string]string{}
 	var problems []string
+	if *osOnly != "" {
+		u := units[0]
+		keyDir := u.dir
+		if u.as != "" {
+			keyDir = u.as
+		}
+		for _, name := range strings.Split(*osOnly, ",") {
+			src, err := os.ReadFile(filepath.Join(u.dir, name))
+			if err != nil {
+				fmt.Fprintln(os.Stderr, "instr:", err)
+				os.Exit(1)
+			}
+			out := strings.Replace(string(src), "\t\"os\"\n", "\tos \"verif/vos\"\n", 1)
+			if out == string(src) {
+				problems = append(problems, name+": no plain os import found; filesystem calls are not logged")
+			}
+			os.MkdirAll(filepath.Join(*outDir, "osonly"), 0o755)
+			dst := filepath.Join(*outDir, "osonly", name)
+			os.WriteFile(dst, []byte(out), 0o644)
+			abs, _ := filepath.Abs(filepath.Join(keyDir, name))
+			replace[abs] = dst
+		}
+		units = nil
+		addOverlayFiles(flag.Args()[0], replace)
+	}
 	for _, u := range units {
 		ps, err := instrumentDir(u, instrumented, replace)
 		if err != nil {
@@ -83,6 +110,9 @@ func main() {
 		}
 		problems = append(problems, ps...)
 	}
+	if *osOnly == "" && *addFiles != "" {
+		addOverlayFiles(flag.Args()[0], replace)
+	}
 	b, _ := json.MarshalIndent(map[string]any{"Replace": replace}, "", " ")
 	if err := os.WriteFile(*overlay, b, 0o644); err != nil {
 		fmt.Fprintln(os.Stderr, err)
@@ -90,6 +120,23 @@ func main() {
 	}
 	for _, p := range problems {
 		fmt.Fprintln(os.Stderr, "instr: note:", p)
+	}
+}
+
+// addOverlayFiles maps the -add files into the (overlay key) directory of the first unit.
+func addOverlayFiles(arg string, replace map[string]string) {
+	if *addFiles == "" {
+		return
+	}
+	parts := strings.Split(arg, "=")
+	keyDir := parts[0]
+	if len(parts) >= 3 {
+		keyDir = parts[2]
+	}
+	for _, f := range strings.Split(*addFiles, ",") {
+		abs, _ := filepath.Abs(filepath.Join(keyDir, filepath.Base(f)))
+		src, _ := filepath.Abs(f)
+		replace[abs] = src
 	}
 }
 
